@@ -99,7 +99,11 @@ func c18Gen(t *rapid.T) cliScenario {
 			sc.Text = strings.Join(lines[:at], "") + long + strings.Join(lines[at:], "")
 		}
 	}
-	sc.Source = rapid.SampledFrom([]string{"file", "file", "stdin", "dash", "missing", "directory"}).Draw(t, "source")
+	sc.Source = rapid.SampledFrom([]string{"file", "file", "stdin", "dash", "missing", "directory", "stdin-file", "stdin-devnull"}).Draw(t, "source")
+	if sc.Source == "stdin-devnull" {
+		// standard input is the null device: an empty grammar, through a character device
+		sc.Grammar, sc.Text, sc.LongLine = "empty", "", 0
+	}
 	sc.Dest = rapid.SampledFrom([]string{"default", "named", "stdout", "missing-parent", "directory", "device-full", "stdout-full"}).Draw(t, "dest")
 	sc.Existing = rapid.SampledFrom([]string{"", "", "shorter", "longer"}).Draw(t, "existing")
 	for _, f := range []string{"-inline", "-switch", "-noast", "-strict"} {
@@ -126,7 +130,7 @@ func runScenario(c *drv.Ctx, bin string, sc cliScenario, n int) string {
 	_ = os.MkdirAll(dir, 0o755)
 	defer os.RemoveAll(dir)
 	args := append([]string{}, sc.Flags...)
-	stdin := ""
+	stdin, stdinPath := "", ""
 	grammarFile := "in.peg"
 	var destPath string // "" => stdout
 	switch sc.Dest {
@@ -159,6 +163,12 @@ func runScenario(c *drv.Ctx, bin string, sc cliScenario, n int) string {
 	case "dash":
 		stdin = sc.Text
 		args = append(args, "-")
+	case "stdin-file":
+		// peg <in.peg : standard input is a regular file, not a pipe
+		stdinPath = filepath.Join(dir, "redirected.peg")
+		_ = os.WriteFile(stdinPath, []byte(sc.Text), 0o644)
+	case "stdin-devnull":
+		stdinPath = os.DevNull
 	case "missing":
 		args = append(args, "nothere.peg")
 		grammarFile = "nothere.peg"
@@ -185,9 +195,16 @@ func runScenario(c *drv.Ctx, bin string, sc cliScenario, n int) string {
 	}
 	var exit int
 	var stdout, stderr string
-	if sc.Dest == "stdout-full" {
+	if stdinPath != "" {
+		b, _ := os.ReadFile(stdinPath)
+		stdin = string(b)
+	}
+	switch {
+	case sc.Dest == "stdout-full":
 		exit, stderr = runPegStdoutFull(bin, dir, stdin, args...)
-	} else {
+	case stdinPath != "":
+		exit, stdout, stderr = runPegStdinFrom(bin, dir, stdinPath, args...)
+	default:
 		exit, stdout, stderr = runPeg(bin, dir, stdin, nil, args...)
 	}
 	strict := false
@@ -351,6 +368,27 @@ func init() {
 }
 
 // runPegStdoutFull runs peg with standard output connected to /dev/full.
+// runPegStdinFrom runs peg with standard input opened from a path (a regular file, a device).
+func runPegStdinFrom(bin, dir, path string, args ...string) (exit int, stdout, stderr string) {
+	f, err := os.Open(path)
+	if err != nil {
+		return -1, "", err.Error()
+	}
+	defer f.Close()
+	cmd := exec.Command(bin, args...)
+	cmd.Dir = dir
+	cmd.Stdin = f
+	var so, se bytes.Buffer
+	cmd.Stdout, cmd.Stderr = &so, &se
+	if err := cmd.Run(); err != nil {
+		if ee, ok := err.(*exec.ExitError); ok {
+			return ee.ExitCode(), so.String(), se.String()
+		}
+		return -1, so.String(), se.String()
+	}
+	return 0, so.String(), se.String()
+}
+
 func runPegStdoutFull(bin, dir, stdin string, args ...string) (int, string) {
 	full, err := os.OpenFile("/dev/full", os.O_WRONLY, 0)
 	if err != nil {
